@@ -124,7 +124,7 @@ CLAIMED['C12'] = dict(
          'state-less policy gets everything (C12_fresh_policy_gets_all, C12_lost_state_gets_all). The unguarded statement is REFUTED by a '
          'kernel-checked history (C12_full_refuted) = known finding C12-max-trial-id-decreases. THE LOADER IS THE SOURCE: coq/Gen/TrialCacheSrc.v is regenerated from trial_caches.py at every run (guard, set expressions, status '
          'filter of get_newly_completed_trials; dump / load / clear) and its meaning is proved equal to the model function the theorems are about '
-         '(C12_source_loader_is_the_model, C12_source_restart_keeps_the_cache). Tie: the real loader, the three policy wrappers over '
+         '(C12_source_loader_is_the_model, C12_source_restart_keeps_the_cache); coq/Gen/PolicySrc.v likewise from designer_policy.py: what DesignerPolicy and the state-persisting policies hand to Designer.update, step by step, is what the model says, the state is dumped after the update, a DecodeError starts over with a cleared cache (C12_source_stateful_policy_is_the_model, C12_source_fresh_policy_is_the_model, C12_source_state_is_dumped_after_the_update). Tie: the real loader, the three policy wrappers over '
          'InRamPolicySupporter and the policies hosted in the real service are compared with the model on generated histories.'),
    note=BASE_TB + ' The recording designer and the world generator of harness/props/c12.py.',
    technique='Rocq proof (invariant over request histories, pigeonhole on the id set; loader regenerated from the source by a translator) + vm_compute correspondence', design='5/C12')
@@ -202,12 +202,12 @@ CLAIMED['C16'] = dict(
          'rejects empty names, bounds+feasible, duplicate / mixed / non-finite feasible values, non-finite / reversed / mixed bounds, and '
          'space.add rejects duplicate names (one theorem per class); accepted definitions are normalised (sorted feasible values as a '
          'permutation of the input, ordered finite bounds, inferred type); SequentialParameterBuilder (dfs and bfs) visits exactly the '
-         'parameters active under the chosen values for every conditional tree (C16_builder_visits_exactly_active), and it validates the value chosen for EVERY parameter whatever its type: a value outside the domain of any active parameter is refused, an answer lists exactly the active parameters with the values chosen (C16_builder_validates_every_value; stating it exposed a genuine defect - continuous parameters were not validated - repaired by a fix: commit). Tie: factory / contains / '
+         'parameters active under the chosen values for every conditional tree (C16_builder_visits_exactly_active), and it validates the value chosen for EVERY parameter whatever its type: a value outside the domain of any active parameter is refused, an answer lists exactly the active parameters with the values chosen (C16_builder_validates_every_value; stating it exposed a genuine defect - continuous parameters were not validated - repaired by a fix: commit). THE FACTORY IS THE SOURCE: coq/Gen/FactorySrc.v is regenerated from parameter_config.py at every run (ParameterConfig.factory as a decision tree, helper bodies pinned) and proved to denote the model function (C16_source_factory_is_the_model). Tie: factory / contains / '
          'SearchSpace.contains / SequentialParameterBuilder compared with the model on generated definitions, near-miss assignments and '
          'conditional spaces; conditional membership must raise NotImplementedError; Study.add_trial must refuse outside trials. One defect '
          'found and repaired (OverflowError from contains).'),
    note=BASE_TB + ' CUSTOM parameters, default-value validation and float isclose tolerances are not modelled; doubles are exact rationals plus inf/nan.',
-   technique='Rocq proof (boolean reflection of membership, sorting/permutation, worklist invariant for the builder) + vm_compute correspondence', design='5/C16')
+   technique='Rocq proof (boolean reflection of membership, sorting/permutation, worklist invariant for the builder; factory regenerated from the source by a translator) + vm_compute correspondence', design='5/C16')
 CLAIMED['C17'] = dict(
    text=('Theorems (closed under the global context): casts present booleans as True/False, integer-valued values as ints of equal value, '
          'floats and internal values unchanged; for conditional spaces of any shape, when trial_parameters reports no error the presented '
